@@ -260,6 +260,50 @@ class list_of:
         return [TVal.fresh('%s%d' % (name, i)) for i in range(self.n)]
 
 
+def setup_input(world):
+    setup(world)
+    world.callee_contract(U + 'convert_input_data')
+    world.recursive_contracts = True
+
+
+def input_contracts():
+    """convert_input_data, one level per kind, the recursive calls going to
+    the function's own contract (structural induction): the induction is
+    only valid when every nested call is convert_input_data ITSELF with the
+    default recursion - a memoising / substituting wrapper in between makes
+    the result depend on something other than the sub-document's value."""
+    cs = []
+    CI = '[e for e in calls if e[0] == "contract:utils.convert_input_data"]'
+    SELF = 'ufn("isinst:convert_input_data", %s, ret="Bool")'
+
+    def c(name, **kw):
+        kw.setdefault('native', False)
+        kw.setdefault('serves', ('C10', 'C09'))
+        x = Contract(U + 'convert_input_data',
+                     name='utils.convert_input_data/' + name, **kw)
+        cs.append(x)
+        return x
+    nested = ('all([e[1][1] is None or e[1][1].name == '
+              '"convert_input_data" for e in %s])' % CI)
+    for kind, mk in (('tuple', tuple_of(TVal, 2)), ('list', list_of(2))):
+        c(kind, params=dict(obj=mk),
+          ensures=['type(result) is tuple', 'len(%s) == 2' % CI,
+                   '%s[0][1][0] == obj[0] and %s[1][1][0] == obj[1]' % (
+                       CI, CI),
+                   'result == (%s[0][2], %s[1][2])' % (CI, CI), nested])
+    c('mapping', params=dict(obj=dict2()),
+      ensures=['isinstance(result, "FrozenDict")', 'len(%s) == 4' % CI,
+               nested,
+               '[e[1][0] for e in %s] == [K0, V0, K1, V1]' % CI])
+    c('scalar', params=dict(obj=TVal),
+      requires=['not isinstance(obj, "Sequence") or isinstance(obj, "str")',
+                'not isinstance(obj, "Mapping")',
+                'not isinstance(obj, "MutableSet")',
+                'not isinstance(obj, "Iterable") or isinstance(obj, "str")'],
+      ensures=['result == obj', 'len(calls) == 0'])
+    return cs
+
+
 def prealloc_contracts():
     """Repetition refuses BEFORE allocating: normal return implies that the
     own size of the result fits the quota (T-size linear model)."""
